@@ -1043,7 +1043,9 @@ impl<'r> Gen<'r> {
         if cands.is_empty() {
             return Piece::Tok(self.fresh("b"));
         }
-        let m = self.r.pick(&cands).clone();
+        // wrappers around define-generating macros are the interesting nesting: prefer them now and then
+        let gens: Vec<MacroDef> = cands.iter().filter(|m| matches!(m.body.as_ref().and_then(|b| b.last()), Some(Piece::DefStmt(..)) | Some(Piece::UndefStmt(..)))).cloned().collect();
+        let m = if !gens.is_empty() && self.r.chance(1, 3) { self.r.pick(&gens).clone() } else { self.r.pick(&cands).clone() };
         let name_formal = def_name_formal(&m);
         let args = m.formals.as_ref().map(|fs| {
             fs.iter()
@@ -1123,7 +1125,7 @@ impl<'r> Gen<'r> {
             if b.is_empty() {
                 b.push(Piece::Tok(self.fresh("b")));
             }
-            if self.o.define_in_body && self.r.chance(1, 8) {
+            if self.o.define_in_body && self.r.chance(1, 5) {
                 // the rest of the line belongs to the generated directive, so it is the last piece; the piece before
                 // it is a plain token (no literal / usage directly in front of a directive: K1 steering)
                 if !matches!(b.last(), Some(Piece::Tok(_))) {
